@@ -537,6 +537,29 @@ func runBig(c *engine.Ctx, b bigCase, idx int) {
 			os.noChi = true
 			runCase(c, &css, os)
 		} else {
+			// further representations (views of views, representation variants,
+			// struct values, a caller-implemented Graph: reprs.go) where no function
+			// walks more than maxListedCliques cliques: the seeded relabelling gets
+			// one of them in the quick tier, both labellings get two in thorough
+			// (a view of a view pays for every Neighbours call with a merge through
+			// each level: n <= 66 in the quick tier)
+			if n <= 130 && b.nCliques <= maxListedCliques {
+				if c.Thorough() {
+					opt.variants = 1
+					if n <= 66 || li == 1 {
+						opt.nested = 1
+					}
+				} else if li == 1 {
+					if idx%2 == 1 {
+						opt.variants = 1
+					} else if n <= 66 {
+						opt.nested = 1
+					}
+				}
+				if opt.nested+opt.variants > 0 {
+					c.Obs("large:graphs_in_further_representations", 1)
+				}
+			}
 			runCase(c, cs, opt)
 		}
 		if li == 0 && (n == 64 || n == 200) {
